@@ -322,6 +322,8 @@ pub struct Inner {
     pub ranges: Vec<(usize, usize, Lid)>,
     /// address of the raw lock inside each lock, learnt from its operations (0: not yet seen)
     pub raw_addr: Vec<usize>,
+    /// tags whose destructor panics
+    pub tag_panicky: Vec<usize>,
     pub pct_changes: Vec<u64>,
     pub shadow: Vec<u64>,
     pub drops: Vec<u32>,
@@ -827,6 +829,7 @@ impl Sched {
                 stats: Stats::default(),
                 ranges: Vec::new(),
                 raw_addr: vec![0; nlocks],
+                tag_panicky: Vec::new(),
                 pct_changes,
                 shadow: vec![0; nlocks],
                 drops: vec![0; nlocks],
